@@ -380,11 +380,11 @@ class VarcharProfiler(BaseProfiler):
     def __call__(self, column_data: List[Any]):
         self.profile.count = len(column_data)
         column_data = [col for col in column_data if col is not None]
+        self.profile.missing = self.profile.count - len(column_data)
         if len(column_data) > 0:
             # K-minimum value hashes, used for cardinality estimation
             self.profile.kmv_hashes = get_kvm_hashes(column_data, KVM_SIZE)
             column_data = [col[:SIXTY_FOUR_BYTES] for col in column_data]
-            self.profile.missing = self.profile.count - len(column_data)
             self.profile.minimum = string_to_int64(min(column_data))
             self.profile.maximum = string_to_int64(max(column_data))
 
